@@ -19,6 +19,9 @@ A *plan* is a JSON list of fault entries, fired in order (a chain):
 "before": the call is not performed, a genuine sqlite3.OperationalError / sqlite3.IntegrityError is raised instead;
 "after":  the call is performed (its effect on the database is real) and then the error is raised;
 "crash":  os._exit(137) before / after performing the call (only meaningful in a child process).
+"park":   the calling thread stops for ever right before / after the call (no unwinding, no cleanup code runs) after
+          setting `rec.parked`; used by crash runners that freeze many independent runs at their fault points in one
+          child process and then kill that process with os._exit(137).
 A connect call that fails "after" closes the raw connection itself first (the driver, not the caller, owns a connection
 that was never handed out).  A close call that fails "before" leaves the connection open by the plan's doing; such a
 connection is flagged `close_refused` so that nobody is blamed for it.
@@ -79,6 +82,7 @@ class Recorder(object):
         self.fired = []               # (plan position, call index)
         self.probe = probe            # optional callable -> JSON-able value stored with each call (e.g. lock state)
         self.on_call = None           # optional callable(entry) invoked before a call is performed (yield points)
+        self.parked = threading.Event()
 
     # ------------------------------------------------------------------ control
     def start(self):
@@ -147,6 +151,8 @@ class Recorder(object):
             entry['fault'] = 'before'
             if fault['exc'] == 'crash':
                 os._exit(137)
+            if fault['exc'] == 'park':
+                self._park()
             if kind == 'close':
                 crec.close_refused = True
             if kind == 'connect':
@@ -175,6 +181,8 @@ class Recorder(object):
             entry['fault'] = 'after'
             if fault['exc'] == 'crash':
                 os._exit(137)
+            if fault['exc'] == 'park':
+                self._park()
             if kind == 'connect':
                 crec.never_handed_out = True
                 if undo is not None:
@@ -183,6 +191,10 @@ class Recorder(object):
             entry['result'] = 'injected'
             raise EXC[fault['exc']]('%s #%s after %s' % (MARK, idx, kind))
         return res
+
+    def _park(self):
+        self.parked.set()
+        threading.Event().wait()      # for ever: the process is about to be killed
 
     # ------------------------------------------------------------------ reporting
     def brief(self, lo=0, hi=None):
@@ -206,8 +218,11 @@ def _in_tx(conn):
         return False
 
 
-def make_factory(rec):
-    """Connection class (for sqlite3.connect(factory=...)) whose calls go through `rec`."""
+def make_factory(rec, fsync=False):
+    """Connection class (for sqlite3.connect(factory=...)) whose calls go through `rec`.
+    fsync=False: every new connection gets PRAGMA synchronous=OFF (not logged, not a fault point).  SQLite then still
+    writes its rollback journal before touching the database file, it only stops waiting for the disk; that matters for
+    power loss, not for errors or for the death of the process, and it makes a COMMIT ~100x cheaper."""
 
     class FaultCursor(sqlite3.Cursor):
         def execute(self, sql, *args):
@@ -218,8 +233,11 @@ def make_factory(rec):
 
     class FaultConnection(sqlite3.Connection):
         def __init__(self, *args, **kwargs):
-            rec.call('connect', self, None, lambda: sqlite3.Connection.__init__(self, *args, **kwargs),
-                     undo=lambda: sqlite3.Connection.close(self))
+            def do():
+                sqlite3.Connection.__init__(self, *args, **kwargs)
+                if not fsync:
+                    sqlite3.Connection.execute(self, 'PRAGMA synchronous=OFF')
+            rec.call('connect', self, None, do, undo=lambda: sqlite3.Connection.close(self))
 
         def cursor(self, factory=None):
             return rec.call('cursor', self, None, lambda: sqlite3.Connection.cursor(self, FaultCursor))
